@@ -191,6 +191,15 @@ func (b *builder) emitFail(w *writer, i int) []frame {
 	switch b.c.Fail {
 	case "unary":
 		return one("", "-", "\"s\"")
+	case "unary-call":
+		// the operand is not a literal: the operator's position must not slide onto the operand
+		return one("", "-", "str(x)")
+	case "unary-paren":
+		return one("", "~", "(\n        [x] +\n        [2])")
+	case "unary-attr":
+		return one("", "-", "{\"k\": \"v\"}.get(\"k\")")
+	case "unary-index":
+		return one("", "+", "[\"s\", x][0]")
 	case "index":
 		return one("x", "[", "0]")
 	case "attr":
@@ -561,7 +570,7 @@ func clipSrc(s string) string {
 
 var subChain = vk.Register("chain", checkChain)
 
-var failKinds = []string{"pluschain-str", "pluschain-list", "pluschain-multiline", "pluschain-mid", "pluschain-tuple", "binary", "unary", "index", "attr", "call", "div", "cmp", "in", "dictkey", "arity", "fail", "builtin",
+var failKinds = []string{"unary-call", "unary-paren", "unary-attr", "unary-index", "pluschain-str", "pluschain-list", "pluschain-multiline", "pluschain-mid", "pluschain-tuple", "binary", "unary", "index", "attr", "call", "div", "cmp", "in", "dictkey", "arity", "fail", "builtin",
 	"uglobal", "unpack", "ulocal", "for", "augindex", "setfield", "ufree", "ufree-lambda", "ucell"}
 var callKinds = []string{"plain", "plain", "comp", "default", "sorted", "min", "max", "cond", "host-index", "host-attr", "host-binary", "host-rbinary", "host-unary", "host-cmp"}
 
